@@ -7,8 +7,8 @@ from .. import common, libdiff, jsonx
 from ..common import coq_string, coq_list
 from . import libcommon
 
-THEOREMS = ["c10_body_routes_to_the_same_method", "c10_executor_builder", "c10_instantiate_builder",
-            "c10_translated_instantiate_builder"]
+THEOREMS = ["c10_body_routes_to_the_same_method", "c10_executor_builder", "c10_instantiate_builder"]
+THEOREMS_T = ["c10_translated_instantiate_builder", "c10_translated_builder_setters"]
 
 STR = ["", "a", "owner1", "quo\"te", "x y", "unié", "long" * 20]
 
@@ -58,6 +58,8 @@ def check(run, replay=None):
                 "InstantiateBuilder with every order of label/admin/funds setters, with and without salt; admin helpers; "
                 "non-trivial = distinct operation")
     libcommon.preamble(run, "Props/C10", THEOREMS)
+    # tie by translation of builder/instantiate.rs; when not established, more builder sessions are compared below
+    tie = run.prove("Props/C10T", THEOREMS_T, strengthening=True)
     n = 40 if thorough else 8
     ops, meta = [], []
     addrs = ["target", "cosmos1abc", "", "a b"]
@@ -75,7 +77,7 @@ def check(run, replay=None):
                 ops.append(op)
                 meta.append(("query", op))
     # instantiate builder: all orders of setters
-    for _ in range(60 if thorough else 25):
+    for _ in range(60 if thorough else (25 if tie else 150)):
         steps = []
         for _ in range(rng.choice([0, 1, 2, 3, 4, 5])):
             k = rng.choice(["label", "admin", "funds"])
